@@ -39,6 +39,10 @@ def import_sketchnu():
     import warnings
 
     warnings.filterwarnings("ignore", category=SyntaxWarning)
+    # prange kernels run on tiny tables here: 2 threads still exercise the
+    # parallel code path without 16 spinning OpenMP threads per process
+    os.environ.setdefault("NUMBA_NUM_THREADS", "2")
+    os.environ.setdefault("OMP_WAIT_POLICY", "passive")
     t0 = time.time()
     # make sure an installed copy elsewhere can never shadow /repo
     if REPO not in sys.path:
@@ -202,7 +206,7 @@ class Reporter:
     def finish(self):
         c = self.cov
         c["distinct_nontrivial"] = len(self._nontrivial) + c.pop("_nt_extra", 0)
-        c["distinct_outcomes"] = len(self._outcomes)
+        c["distinct_outcomes"] = len(self._outcomes) + c.pop("outcomes_sum", 0)
         if self.parts:
             c["parts"] = self.parts
         return c
